@@ -17,6 +17,8 @@ for d in sorted(glob.glob(os.path.join(V, "seeded", "*-*/")), key=key):
     det += [k + " (cross)" for k, v in w.get("cross_check", {}).items() if v.get("rc") == 1]
     det += [k + " (after strengthening)" for k in w.get("after_strengthening", {})]
     first = det[0] if det else "NOT REPORTED"
+    if m.get("superseded"):
+        first += " (while it broke the property: made harmless by a later fix, see meta.json)"
     hist = m.get("history") or []
     note = ""
     if any(h.get("detected") is False for h in hist):
